@@ -384,14 +384,10 @@ pub fn exec_history(
         let la: Vec<(String, bool)> = log_a.iter().map(|e| (e.module.clone(), e.found)).collect();
         let lb: Vec<(String, bool)> = log_b.iter().map(|e| (e.module.clone(), e.found)).collect();
         if la != lb {
-            res.fail(
-                "import-log-diverged",
-                format!(
-                    "input {k} `{}`: modules fetched by the session with failing history {la:?} differ from the reference {lb:?}",
-                    step.text.replace('\n', " ⏎ ")
-                ),
-            );
-            break;
+            // Importer traffic is not observable by a user (a cache could legitimately change
+            // it), so this is a coverage signal only; the effect of every import is compared
+            // through outcomes and digests.
+            res.bump("probe.importer_traffic_differs_from_reference");
         }
 
         let failed = !oa.is_ok();
